@@ -1,12 +1,14 @@
 #!/bin/sh
-# usage: seed_run.sh <seed id> <prop> [<prop>...]  -- applies seeded/<id>/patch.diff to /repo, runs the
-# checks, and reverts /repo straight afterwards.
+# usage: seed_run.sh <seed id> <prop> [<prop>...]  -- applies seeded/<id>/patch.diff to a scratch worktree of
+# /repo's HEAD (outside /repo and /verif), runs the checks against it (REPO=...), removes the worktree.
 id="$1"; shift
 cd /verif
-git -C /repo diff --quiet || { echo "/repo not clean"; exit 9; }
-git -C /repo apply "/verif/seeded/$id/patch.diff" || { echo "patch does not apply"; exit 9; }
+wt="/tmp/seedwt_$id"
+git -C /repo worktree remove --force "$wt" 2>/dev/null
+git -C /repo worktree add --detach "$wt" HEAD >/dev/null 2>&1 || { echo "cannot create worktree"; exit 9; }
+git -C "$wt" apply "/verif/seeded/$id/patch.diff" || { echo "patch does not apply"; git -C /repo worktree remove --force "$wt"; exit 9; }
 for p in "$@"; do
-  ./check "$p" --no-evidence > "/tmp/seedrun_${id}_$p.log" 2>&1; rc=$?
+  REPO="$wt" ./check "$p" --no-evidence > "/tmp/seedrun_${id}_$p.log" 2>&1; rc=$?
   echo "== seed $id  check $p  exit $rc"; grep -E "^VIOLATION|^UNDECIDED|^CHECKER|obligations" "/tmp/seedrun_${id}_$p.log" | cut -c1-260 | head -8
 done
-git -C /repo checkout -- .
+git -C /repo worktree remove --force "$wt"
